@@ -693,7 +693,6 @@ func c14GateSeesCoercedVariables(c *Ctx) {
 	}
 }
 
-
 // storesCoercedVariables: on every path to a return with an empty error list... kept simple: h contains a store of
 // validator.VariableValues' first result into the Variables field of its parameter p, and no other store to that field.
 func storesCoercedVariables(h *ssa.Function, p *ssa.Parameter, depth int) bool {
